@@ -219,6 +219,7 @@ C08(i, o) ==
       k \in {k \in Sh(i) : "cfgBodyOK" \in DOMAIN o /\ ~o.cfgBodyOK[k]}}
   \cup {[f |-> "moved-to-shard-not-in-sync", k |-> p[1], t |-> p[2]] :
       p \in {p \in C05_Unpaired(i, o) : \E k \in Sh(i) : ~InSync(i, k)}}
+  \cup (IF "extraBodyOK" \in DOMAIN o /\ ~o.extraBodyOK THEN {[f |-> "extra-config-body-wrong"]} ELSE {})
   \cup {[f |-> "assigned-twice", t |-> t] :
       t \in {t \in ActiveSet(i) :
                /\ \E k \in Sh(i) : StatusOK(i, k) /\ ~InSync(i, k) /\ t \in Reported(i, k)
